@@ -30,7 +30,8 @@ Theorem c15_handler_spec : forall o s fs s' evs r, wcoh s -> exec (handler o) s 
   /\ frame (key_of o) (wsr s) (wsr s') /\ cshrink (key_of o) s s' /\ c_cap (wc s') = c_cap (wc s)
   /\ Forall (fun e => ev_key e = key_of o) evs /\ Forall (pre_good (sview s (key_of o))) evs
   /\ (r = RErr EDupKey -> no_store_ev evs = true)
-  /\ (r = RNil -> cview s' (key_of o) = None /\ sview s' (key_of o) = None).
+  /\ (r = RNil -> cview s' (key_of o) = None /\ sview s' (key_of o) = None)
+  /\ r <> RPanic.
 Proof. exact handle_spec. Qed.
 
 (* ---- coherence after every sequential history (group of any size, either facade) and every fault pattern ---- *)
@@ -110,11 +111,17 @@ Theorem c15_sched_steps_routed : forall c deep ls g g' tr, minv g -> rinv c g ->
   Forall (step_routed c) tr.
 Proof. exact rinv_grun. Qed.
 
-(* ---- locHash: in range for every hash but MinInt (DESIGN section 8: the caller panics before anything is accepted) ---- *)
-Theorem c15_lochash_in_range : forall h n, 0 < n -> - two63 < h < two63 -> 0 <= loc h n < n.
+(* ---- locHash as repaired (defect 21: reduce first, then take the absolute value): in range for EVERY hash, the same
+        index as before for every hash but the smallest int, hence no call of a group with a worker panics; the code
+        before the repair is kept as loc_prefix and refuted: hash MinInt with three workers gave index -2 ---- *)
+Theorem c15_lochash_in_range : forall h n, 0 < n -> 0 <= loc h n < n.
 Proof. exact lochash_in_range. Qed.
-Theorem c15_lochash_minint : loc (- two63) 127 = -1.
-Proof. exact lochash_minint. Qed.
+Theorem c15_lochash_agrees_prefix : forall h n, 0 < n -> - two63 < h < two63 -> loc h n = loc_prefix h n.
+Proof. exact lochash_agrees_prefix. Qed.
+Theorem c15_lochash_prefix_refuted : loc_prefix (- two63) 3 = -2 /\ loc_prefix (- two63) 127 = -1 /\ loc (- two63) 3 = 2.
+Proof. exact lochash_prefix_refuted. Qed.
+Theorem c15_no_call_panics : forall c g o fs g' evs r, gok g -> 0 < g_n c -> do_op c g o fs = (g', evs, r) -> r <> RPanic.
+Proof. exact do_op_no_panic. Qed.
 
 (* ---- the two laws of the cache facade the coherence argument uses, for the concrete facade (map = no capacity) ---- *)
 Theorem c15_facade_set_law : forall c k v k' v',
@@ -222,6 +229,14 @@ Example c15_ex_abandoned_get :
   | None => False end.
 Proof. vm_compute. repeat split. Qed.
 
+(* the key whose hash is the smallest int (mux.Int64(MinInt64), mux.UInt64(1<<63), ...) is served like any other *)
+Definition ex_min_cfg := mkCfg 3 None [] [(-9223372036854775808, 7)].
+Example c15_ex_minint_key :
+  loc_of ex_min_cfg (-9223372036854775808) = 2
+  /\ snd (do_op ex_min_cfg (ginit ex_min_cfg) (OGet (-9223372036854775808)) []) = ROk (Some 7)
+  /\ cache_at ex_min_cfg (fst (fst (do_op ex_min_cfg (ginit ex_min_cfg) (OGet (-9223372036854775808)) []))) (-9223372036854775808) = Some (Some 7).
+Proof. vm_compute. repeat split. Qed.
+
 Print Assumptions c15_case_sound.
 Print Assumptions c15_seq_model_holds.
 Print Assumptions c15_conc_model_holds.
@@ -239,7 +254,9 @@ Print Assumptions c15_sched_delete_evicts.
 Print Assumptions c15_sched_same_key_serial.
 Print Assumptions c15_sched_steps_routed.
 Print Assumptions c15_lochash_in_range.
-Print Assumptions c15_lochash_minint.
+Print Assumptions c15_lochash_agrees_prefix.
+Print Assumptions c15_lochash_prefix_refuted.
+Print Assumptions c15_no_call_panics.
 Print Assumptions c15_facade_set_law.
 Print Assumptions c15_facade_get_keeps_answers.
 Print Assumptions c15_generic_facade_coherent.
@@ -256,3 +273,4 @@ Print Assumptions c15_ex_oversize_growth.
 Print Assumptions c15_ex_upsert_miss.
 Print Assumptions c15_sched_abandon_keeps_state.
 Print Assumptions c15_ex_abandoned_get.
+Print Assumptions c15_ex_minint_key.
